@@ -91,6 +91,7 @@ def stepD (ds : DState) (toks : List String) : DState × String :=
     | none => (ds, "bad-op")
     | some t => let y := normSys (IstioModel.C03.step ds.sys (.sub t (decList nm))); ({ ds with sys := y }, showSys y)
   | ["pushall"] => let y := normSys (IstioModel.C03.step ds.sys .pushall); ({ ds with sys := y }, showSys y)
+  | ["reconnect"] => let y := normSys (IstioModel.C03.step ds.sys .reconnect); ({ ds with sys := y }, showSys y)
   | ["out", ty, kind, res, del, used, inc] =>
     match Ty.ofTok ty with
     | none => (ds, "bad-op")
